@@ -79,7 +79,7 @@ def gen_plan(rng):
             kw["layout"] = rng.choice(opgen.LAYOUTS)
         ops.append({"op": "create", "cls": "PLSSDesc",
                     "text": corpus.gen_desc(rng),
-                    "config": opgen.gen_config_text(rng, hi=2),
+                    "config": opgen.gen_config_text(rng, hi=3),
                     "kw": kw})
         pkw_names = opgen.PLSS_PARSE_KW
     else:
@@ -130,10 +130,10 @@ def _gen_op(rng, cls, kind, pkw_names):
                                                 none_ok=False)}
     if kind == "parse":
         return {"op": "parse", "commit": True,
-                "kw": opgen.gen_kw(rng, pkw_names, 0, 2)}
+                "kw": opgen.gen_kw(rng, pkw_names, 0, 3)}
     if kind == "parse_nc":
         return {"op": "parse", "commit": False,
-                "kw": opgen.gen_kw(rng, pkw_names, 0, 2)}
+                "kw": opgen.gen_kw(rng, pkw_names, 0, 3)}
     if kind == "parse_tracts":
         cfg = None
         if rng.random() < 0.4:
